@@ -985,6 +985,15 @@ class Selection:
     def dtype(self):
         return DType(self.kind, self.unit)
 
+    @property
+    def size(self):
+        raise Unsupported("size of a selection (needs a count)")
+
+    def __setitem__(self, idx, value):
+        # selections handed out by the streams are views of frame columns (read-only under pandas
+        # copy-on-write) or fresh copies; the conservative contract is: not writable
+        raise ValueError("assignment destination is read-only")
+
 
 def sel_write(a, b, value):
     """a[b] = value with a boolean mask b.  Modelled for the idiom  a[m] = src[m]  (the value is a
@@ -999,6 +1008,19 @@ def sel_write(a, b, value):
         src = value.base_elem
         bg = b.getter()
         a.write(lambda j: bg(j)[1], lambda j: src(j))
+        return
+    v = value._data if isinstance(value, MArr) else value
+    vn = alg.as_concrete(v.n)
+    if vn == 0:
+        # zero values can only be assigned to zero selected positions
+        anytrue = reduce_any(b.copy(), None)
+        if _fork(anytrue.t):
+            raise ValueError("NumPy boolean array indexing assignment cannot assign 0 input values to the output values where the mask is true")
+        return
+    if vn == 1:
+        p = v.elem(0)
+        bg = b.getter()
+        a.write(lambda j: bg(j)[1], lambda j: p)
         return
     raise Unsupported("boolean-mask assignment of an array value")
 
